@@ -409,6 +409,30 @@ def balance_rule(repo, res, rule="BAL"):
         res.check(opens == closes, rule, f"{rule}:{fn.qname}", f"{opens} opening and {closes} closing braces written outside quoted strings", fn.loc())
 
 
+def declfirst_rule(repo, res, rule="DECLFIRST"):
+    """DOT creates a node at its first mention, with the default attributes in force there.  A dump that sets the node shape by
+    `node [shape=..];` statements (start / plain / accepting) therefore shows the real automaton only if every node is declared
+    before an edge mentions it: in such a sink every edge template (`->`) stands after every node declaration and after the
+    recursive call that declares the nodes of the within-word automata (whose start states the dashed edges point at)."""
+    n = 0
+    for fn in sinks(repo):
+        envs = A.collect_envs(fn)
+        sites = [s for s in TM.fmt_sites(fn, envs) if s.macro in ("write", "writeln")]
+        if not any(re.search(r"\bnode\s*\[", s.template) for s in sites):
+            continue
+        edges = [s.node for s in sites if "->" in s.template]
+        decls = [s.node for s in sites if re.search(r"\[label=|\bnode\s*\[", s.template) and "->" not in s.template]
+        decls += [c for c in P.find_calls(fn.body, names={fn.name})]
+        if not edges or not decls:
+            continue
+        n += 1
+        first_edge = min(edges, key=A.pos)
+        late = [d for d in decls if not A.before(d, first_edge)]
+        res.check(not late, rule, f"{rule}:{fn.qname}", f"{len(decls)} node-declaring statements, all before the first of {len(edges)} edge templates" if not late else
+                  f"{len(late)} node-declaring statement(s) stand after the first edge template (e.g. line {late[0]['l']}): an edge that mentions a node first creates it with the shape in force at that point, not the one it is declared under", f"{fn.file}:{first_edge['l']}")
+    res.floor(rule, n, 1)
+
+
 def run(repo, res, tier):
     ty = TY.Typer(repo, RE.ROARING_DIMS)
     enc_rule(repo, res, tier=tier)
@@ -419,6 +443,7 @@ def run(repo, res, tier):
     label_rule(repo, res)
     common.run_traversals(repo, res, enum="RegexNode", only={"regex::do_to_dot"}, rp=False)
     balance_rule(repo, res)
+    declfirst_rule(repo, res)
     # a dump written over an older, longer file is a well-formed graph only if the file is truncated when opened (shared with C10)
     from . import c10
     c10.outfile_rule(repo, res)
